@@ -81,6 +81,7 @@ func (fs *ReadOnlyFS) Open(name string) (hackpadfs.File, error) {
 	err = fs.copyFile(name, f, info)
 	if err != nil {
 		_ = f.Close()
+		fs.cached.Delete(name) // whatever an earlier fill left in the cache store has just been overwritten by a partial copy
 		return nil, err
 	}
 	fs.cached.Store(name, struct{}{})
